@@ -23,6 +23,20 @@ theorem C20_dispatch_exact {α : Type} (t : Table) (cls : String) (args : α) :
   · intro h hl; simp [dispatch, hl]
   · intro hl; simp [dispatch, hl]
 
+/-- **What the handler does is what the caller of `dispatch` sees.**  For a bound class the one
+handler runs with the arguments unchanged and its own outcome - a return, or *whatever* exception
+it raises, a `KeyError` or a `DispatchError` of its own included - is the outcome of `dispatch`;
+`DispatchError` from the dispatcher itself means that no handler ran.  Any table, arguments and
+handler behaviour. -/
+theorem C20_handler_outcome_unchanged {α : Type} (t : Table) (cls : String) (args : α) (beh : Handler → Beh) :
+    (∀ h, lookup t cls = some h → beh h = .returns → dispatchWith t cls args beh = .returned h args) ∧
+    (∀ h e, lookup t cls = some h → beh h = .raises e → dispatchWith t cls args beh = .handlerRaised h args e) ∧
+    (lookup t cls = none → dispatchWith t cls args beh = .dispatchError) := by
+  refine ⟨?_, ?_, ?_⟩
+  · intro h hl hb; simp [dispatchWith, dispatch, hl, hb]
+  · intro h e hl hb; simp [dispatchWith, dispatch, hl, hb]
+  · intro hl; simp [dispatchWith, dispatch, hl]
+
 /-- Registering a handler for a class name that is already bound is refused with an error and
 leaves the table (hence the existing binding) unchanged. -/
 theorem C20_duplicate_refused (t : Table) (ev : String) (h : Handler) (hb : bound t ev = true) :
